@@ -10,6 +10,7 @@ mod c05;
 mod c06;
 mod c07;
 mod c08;
+mod c09;
 mod c10;
 mod shapegen;
 mod c11;
@@ -39,6 +40,7 @@ fn main() {
         "c06" => c06::run(seed, count, &outdir).unwrap(),
         "c07" => c07::run(seed, count, &outdir).unwrap(),
         "c08" => c08::run(seed, count, &outdir).unwrap(),
+        "c09" => c09::run(seed, count, &outdir).unwrap(),
         "c10" => c10::run(seed, count, &outdir).unwrap(),
         "c12" => c12::run(seed, count, &outdir, "c12").unwrap(),
         "c13" => c12::run(seed, count, &outdir, "c13").unwrap(),
